@@ -14,7 +14,7 @@ RULE = ("seeded gen_coords runs over generated topologies (1-3 molecule types: s
         "(schedule signature, event-log digest)")
 ASSUMPTIONS = wa.ASSUMPTIONS
 REAL_VS_STUB = wa.REAL_VS_STUB
-PROBES = wa.PROBES + ["user_grid", "start_option", "coords_supplied", "density_box", "build_file"]
+PROBES = wa.PROBES + ["earlier_call_same_topology_paths", "user_grid", "start_option", "coords_supplied", "density_box", "build_file"]
 PROFILE = {}
 
 
@@ -38,6 +38,8 @@ def gen_job(verif_seed, tier, index):
                                                   est_size=max(topgen.est_size(rt) for rt in job["spec"]["restypes"].values()))
     elif r < 0.6:
         jobgen.add_user_templates(job, g)
+    if job.get("coord_text") is None and not job.get("build_spec") and g.random() < 0.12:
+        jobgen.add_pre_spec(job, g)
     if job.get("coord_text") is None:
         if g.random() < 0.2:
             jobgen.add_user_grid(job, g)
